@@ -707,6 +707,42 @@ def r07_10(ctx):
     ctx.floor("R07.10", "modular arithmetic sites in sonic_number", sum(cnt.values()), 8)
 
 
+def _exp_cap(prog, fn):
+    """the constant bound of the loop that accumulates a written exponent: `acc < C` on an i32 in a body (the function or
+    one of its closures) that also multiplies an i32 by ten"""
+    caps = []
+    for g in prog.with_closures(fn):
+        tens = False
+        for b, i, s in g.assigns():
+            rv = s["rv"]
+            if rv["k"] == "binop" and rv["op"].startswith("Mul") and 10 in (op_int(rv["a"]), op_int(rv["b"])) and "i32" in (rv["a"].get("ty"), rv["b"].get("ty")):
+                tens = True
+        if not tens:
+            continue
+        for b, i, s in g.assigns():
+            rv = s["rv"]
+            if rv["k"] == "binop" and rv["op"] == "Lt" and rv["b"]["k"] == "const" and rv["b"].get("ty") == "i32" and op_int(rv["b"]) >= 100:
+                caps.append((op_int(rv["b"]), s.get("ln")))
+    return caps
+
+
+def r07_11(ctx):
+    """sibling agreement of the two exponent scanners: the fast scanner keeps the written exponent exact as far as the
+    slow-path (dec2flt) scanner does; the value is corrected by the mantissa digit count afterwards, so an early
+    saturation changes the result of zero-padded literals"""
+    prog = ctx.prog()
+    fast = prog.find("sonic_number::parse_exponent")
+    slow = prog.find("decimal::parse_decimal")
+    cf, cs = _exp_cap(prog, fast), _exp_cap(prog, slow)
+    ok = len(cf) == 1 and len(cs) == 1
+    ctx.ob("R07.11", "exponent-cap:anchors", ok, fast.loc(), f"saturation bound of the fast scanner {cf}, of the slow-path scanner {cs}")
+    if ok:
+        ctx.ob("R07.11", "exponent-cap:fast>=slow", cf[0][0] >= cs[0][0], fast.loc(cf[0][1]),
+               f"the fast scanner accumulates while exponent < {cf[0][0]}, the slow-path scanner while < {cs[0][0]}" + ("" if cf[0][0] >= cs[0][0] else
+               ": literals whose padding needs a larger exponent are scaled wrongly on the fast path (1 followed by 12000 zeros and e-12000 is not 1.0)"))
+        ctx.ob("R07.11", "exponent-cap:no-i32-overflow", cf[0][0] * 10 + 9 < 2 ** 31 - 2 ** 24, fast.loc(cf[0][1]), "the accumulated exponent and its digit-count correction stay inside i32")
+
+
 def r07_s(ctx):
     """shifts, table indices and unsigned differences of the conversion stay in range (interval analysis, shared with C01):
     a wrapped shift or an out-of-range table index yields a wrong float in release builds"""
@@ -714,4 +750,4 @@ def r07_s(ctx):
     ctx.include(c01.r01_13, "R07.S", ("sonic_number",), 15)
 
 
-RULES = [("R07.1", r07_1), ("R07.3", r07_3), ("R07.4", r07_4), ("R07.5", r07_5), ("R07.6", r07_6), ("R07.6b", r07_6b), ("R07.7", r07_7), ("R07.8", r07_8), ("R07.9", r07_9), ("R07.10", r07_10), ("R07.S", r07_s)]
+RULES = [("R07.1", r07_1), ("R07.3", r07_3), ("R07.4", r07_4), ("R07.5", r07_5), ("R07.6", r07_6), ("R07.6b", r07_6b), ("R07.7", r07_7), ("R07.8", r07_8), ("R07.9", r07_9), ("R07.10", r07_10), ("R07.11", r07_11), ("R07.S", r07_s)]
